@@ -16,7 +16,8 @@ structure Exec (cfg : Cfg) (s0 : State) where
     | some e => step cfg (ρ i) e = .ok (ρ (i + 1))
 
 /-- Thread `t` is blocked in a semaphore P that can neither succeed (count 0) nor time out (no deadline, or the
-    clock has not reached it): the only program points at which the acceptor accepts no event of the thread. -/
+    clock has not reached it).  (Intended: the only program points at which the acceptor accepts no event of the
+    thread; the analogue of `C02_thread_enabled` is not proved for MuC.) -/
 def AsleepOnSem (s : State) (t : Tid) : Prop :=
   (∃ c k, s.pc t = .lsPRet c ∧ c.w = some k ∧ (s.wr k).sem = 0) ∨
   (∃ c k dl, s.pc t = .mwPdRet c dl ∧ c.w = some k ∧ (s.wr k).sem = 0 ∧ ∀ d, dl = some d → s.now < d)
